@@ -80,14 +80,17 @@ def _other_key_struct(label):
     return key_in(d, pub).raw()
 
 
-def _run(ctx, proto, who, defect, inst, extra_inter):
+def _run(ctx, proto, who, defect, inst, extra_inter, vdepth=None):
     """returns (client ret, server ret, stalled)"""
     shim().freeze_time(pki.T0)
     n_inter = 1 + extra_inter
+    if vdepth is not None:
+        n_inter = min(n_inter, vdepth)      # the honest chain stays inside the configured verification depth
     tw = CERT_DEFECTS.get(defect) if defect in CERT_DEFECTS else None
     impostor = tw == "impostor"
     if impostor:
         tw = None
+        n_inter = max(n_inter, 0)
     stag = "c09s-%s-%d" % (proto, inst)
     ctag = "c09c-%s-%d" % (proto, inst)
     sch, sfiles = _chain(stag, proto, "server", tw if (who == "server" and tw) else None, n_inter, include_root=impostor and who == "server")
@@ -118,6 +121,8 @@ def _run(ctx, proto, who, defect, inst, extra_inter):
     if defect == "empty-client-cert":
         kw["client_doctor"] = lambda ep: ep.set_field("client_certs_len", bytes(8))
     use_client_files = cfiles if (mutual and defect != "no-client-cert") else None
+    if vdepth is not None:
+        kw["depth"] = vdepth
     s = net.Session(ctx.variant, proto, sfiles, client_files=use_client_files, mutual=mutual and defect != "no-client-cert",
                     quiet_ms=600, seed=inst, client_cafile=client_cafile,
                     server_cafile=server_cafile if mutual else None, **kw)
@@ -131,7 +136,10 @@ def _run(ctx, proto, who, defect, inst, extra_inter):
         s.finish()
 
 
-case_s = st.fixed_dictionaries({"cell": st.integers(0, len(CELLS) - 1), "inst": st.integers(0, 5), "extra_inter": st.integers(0, 1)})
+# vdepth: the verification depth both endpoints are configured with (None = the library default; 0 = the anchor must have issued the
+# peer's certificate directly); the honest chains are shortened to fit
+case_s = st.fixed_dictionaries({"cell": st.integers(0, len(CELLS) - 1), "inst": st.integers(0, 5), "extra_inter": st.integers(0, 1),
+                                "vdepth": st.sampled_from([None, None, None, 0, 0, 1, 2, 5])})
 
 
 @P.sub("matrix", case_s, quick=700, thorough=len(CELLS) * 12 * 3)
@@ -139,16 +147,19 @@ def matrix(case, ctx):
     """one cell of the credential-defect matrix, plus its control run"""
     proto, who, defect = CELLS[case["cell"]]
     inst, extra = case["inst"], case["extra_inter"]
+    vd = case.get("vdepth")
+    if vd == 0 and ((isinstance(CERT_DEFECTS.get(defect), dict) and "ca0" in CERT_DEFECTS[defect]) or defect == "leaf-signed-by-other-key"):
+        vd = 1      # the defect lives in (or is defined relative to) an intermediate CA certificate: the chain needs one
     # control: same machinery, no defect (mutual auth when the client is the verified party)
-    ctl = _run(ctx, proto, who, "control", inst, extra)
+    ctl = _run(ctx, proto, who, "control", inst, extra, vd)
     if ctl[0] == "setup-failed":
         raise AssertionError("control set-up failed: %r" % (ctl,))
     if ctl[0][0] == "timeout" or ctl[1][0] == "timeout":
         ctx.note("inconclusive-timeout"); return
     ctx.check(ctl[0][1] == 1 and ctl[1][1] == 1, "control handshake (%s, %s verified, no defect) failed: client=%s server=%s" % (proto, who, ctl[0][1], ctl[1][1]),
               "control/%s/%s" % (proto, who))
-    res = _run(ctx, proto, who, defect, inst, extra)
-    ctx.case(nontrivial=True, classes=[proto, "verify-" + who, defect], ident=[proto, who, defect, inst, extra], sample=dict(case, proto=proto, who=who, defect=defect))
+    res = _run(ctx, proto, who, defect, inst, extra, vd)
+    ctx.case(nontrivial=True, classes=[proto, "verify-" + who, defect, "vdepth=%s" % vd], ident=[proto, who, defect, inst, extra, vd], sample=dict(case, proto=proto, who=who, defect=defect))
     if res[0] == "setup-failed":
         # the defective credentials were refused when they were configured: nothing to bypass
         ctx.note("refused-at-setup/" + defect)
@@ -157,8 +168,8 @@ def matrix(case, ctx):
     if hc[0] == "timeout" or hs[0] == "timeout":
         ctx.note("inconclusive-timeout"); return
     verifier_ret = hc[1] if who == "server" else hs[1]
-    ctx.check(verifier_ret != 1, "%s %s reports a completed handshake although the %s's credentials have the defect '%s' (client ret=%s, server ret=%s, chain with %d intermediate CA)" %
-              (proto, "client" if who == "server" else "server", who, defect, hc[1], hs[1], 1 + extra),
+    ctx.check(verifier_ret != 1, "%s %s reports a completed handshake although the %s's credentials have the defect '%s' (client ret=%s, server ret=%s, chain with at most %d intermediate CA, verification depth %s)" %
+              (proto, "client" if who == "server" else "server", who, defect, hc[1], hs[1], 1 + extra, vd),
               "bypass/%s/%s/%s" % (proto, who, defect))
 
 
